@@ -63,3 +63,21 @@ def register(claim) -> None:
         "instantiation site. Obligations C20.1-C20.5.",
         "Trusts the copy/pickle protocol description of CPython 3.12.",
     )
+    claim(
+        "C01",
+        "merge-order abstract domain + scenario-pruned CFG reachability of the lookup ladder + whole-package write scan + argument forwarding",
+        "Lookup is a pure function of the installed ScopeState, which is only ever built by updated() as [parent values..., new values...] keyed by "
+        "exact type; the obligations decide that construction order, the three-way lookup ladder under all presence/default scenarios, the "
+        "MissingState/MissingContext conversions, immutability of ScopeState after construction, merging of disposables' state and the public "
+        "plumbing. By induction over nesting depth they imply the statement for every scope tree. Obligations C01.1-C01.8.",
+        "Trusts dict ordering / later-key-wins and contextvars. Ordering between direct state and disposables' state of the same type is unspecified.",
+    )
+    claim(
+        "C03",
+        "who-may-touch scans (ContextVar objects, ScopeState writes, globals/class attributes) + task-creation context argument check",
+        "Non-interference by construction: tasks can influence each other's lookups only through a shared mutable object or a shared Context. "
+        "The obligations decide that the ContextVars are the only channel and are used only via get/set/reset in their owning class, that "
+        "ScopeState is immutable and copy-on-write, that no module/class-level state is written in haiway.context, and that every task is "
+        "started in a fresh context copy. This covers every interleaving at once. Obligations C03.1-C03.5.",
+        "Trusts contextvars / asyncio task-context semantics (API_FACT 11).",
+    )
